@@ -30,16 +30,16 @@ INV = "INVARIANTS TypeOK NoSharedWriter NoCrossTalk ContentIntact DecisionRule H
 ACTIONS = ["Begin", "WriteHeader", "Write", "FinishFlush", "FinishPut"]
 
 
-def cfg(spec, handlers, ops, reqs, full=False, bad=False, inv=False):
+def cfg(spec, handlers, ops, reqs, full=False, bad=False, inv=False, codes=None):
     return CFG % dict(spec=spec, handlers=handlers, ops=ops, reqs=reqs,
-                      codes="MCCodesFull" if full else "MCCodesSmall",
+                      codes=codes or ("MCCodesFull" if full else "MCCodesSmall"),
                       chunks="MCChunksFull" if full else "MCChunksSmall",
                       writers={"MCOne": 1, "MCTwo": 2, "MCThree": 3}[handlers],
                       bad="TRUE" if bad else "FALSE", inv=INV if inv else "")
 
 
-def mc(ctx, what, handlers, ops, reqs, timeout):
-    r = ctx.tlc("Gzip_MC", cfg_text=cfg("Spec", handlers, ops, reqs, inv=True), workers=8, timeout=timeout,
+def mc(ctx, what, handlers, ops, reqs, timeout, codes=None):
+    r = ctx.tlc("Gzip_MC", cfg_text=cfg("Spec", handlers, ops, reqs, inv=True, codes=codes), workers=8, timeout=timeout,
                 coverage=ctx.thorough)
     ctx.log("MC %s (%s, <=%d ops, %s): %d generated, %d distinct, %.0fs" % (what, handlers, ops, reqs, r.generated, r.distinct, r.wall))
     if not ctx.need_tlc_ok(r, "Gzip MC " + what):
@@ -53,8 +53,8 @@ def mc(ctx, what, handlers, ops, reqs, timeout):
     return True
 
 
-def gen(ctx, what, sink, handlers, ops, reqs, full, timeout=900):
-    r = ctx.tlc("Gzip_MC", cfg_text=cfg("GenSpec", handlers, ops, reqs, full=full), workers=8, json_sink=sink, timeout=timeout)
+def gen(ctx, what, sink, handlers, ops, reqs, full, timeout=900, codes=None):
+    r = ctx.tlc("Gzip_MC", cfg_text=cfg("GenSpec", handlers, ops, reqs, full=full, codes=codes), workers=8, json_sink=sink, timeout=timeout)
     ctx.log("Gen %s (%s, <=%d ops, %s): %d transitions, %.0fs" % (what, handlers, ops, reqs, r.generated, r.wall))
     if not ctx.need_tlc_ok(r, "Gzip Gen " + what):
         return False
@@ -62,13 +62,15 @@ def gen(ctx, what, sink, handlers, ops, reqs, full, timeout=900):
     return True
 
 
-def share(ctx, src, dst, keep, boost=1.0):
+def share(ctx, src, dst, keep, boost=1.0, need=None):
     """content-selected seeded share of a behaviour file (TLC's output order is not deterministic);
     behaviours in which some handler may be compressed are `boost` times as likely to be kept"""
     n = 0
     salt = ("%d|" % ctx.seed).encode()
     with open(src) as fh, open(dst, "a") as out:
         for line in fh:
+            if need and need not in line:
+                continue
             k = keep * (boost if '"mode":"gzip"' in line else 1.0)
             if k < 1.0:
                 h = int.from_bytes(hashlib.sha1(salt + line.encode()).digest()[:4], "big")
@@ -125,9 +127,10 @@ def races(ctx, r, sub):
 def run(ctx):
     ctx.level = "model_checking"
     ctx.assumptions += [
-        "universe: Accept-Encoding {lists gzip, does not, lists gzip with q=0} x Content-Type {matches, does not, absent} x {not encoded, already encoded} x Content-Length {set, not set} x Accept {other, text/event-stream} x {GET, HEAD}; ops WriteHeader(404|204|304), Write(text | random bytes | empty), <=%d ops per handler; two interleaved handlers with <=2 ops each" % ctx.pick(3, 4),
+        "universe: Accept-Encoding {lists gzip, does not, lists gzip with q=0} x Content-Type {matches, does not, absent} x {not encoded, already encoded} x Content-Length {set, not set} x Accept {other, text/event-stream} x {GET, HEAD}; ops WriteHeader(404|204|304), Write(text | random bytes | empty); informational scripts: WriteHeader(103|102|404|204) in any order with the response headers set before or after the informational calls, <=%d ops per handler; two interleaved handlers with <=2 ops each" % ctx.pick(3, 4),
         "expression: fabio's documented example for proxy.gzip.contenttype; chunk contents seeded, up to 256 KiB",
         "the mode is left free where statement and documentation are silent: no explicit Content-Type (sniffed), Accept: text/event-stream, nothing written; HEAD / 204 / 304 are asserted for status and labels only",
+        "the status of scripts with several WriteHeader calls is cross-checked against (and taken from) a reference run of the same script on net/http without the gzip wrapper",
         "a response the inner handler labelled with a Content-Encoding must pass unchanged (also when that label is gzip)",
         "a data race report involving proxy/gzip/gzip_handler.go counts as a violation (shared writer pool)",
     ]
@@ -139,6 +142,9 @@ def run(ctx):
     for what, hs, ops, reqs, to in runs:
         if not mc(ctx, what, hs, ops, reqs, to):
             return
+    # informational WriteHeader(1xx) calls before / after the final header, two handlers over the pool
+    if not mc(ctx, "informational", "MCTwo", ctx.pick(2, 3), "MCReqsInfoPair", ctx.pick(200, 900), codes="MCCodesInfoSmall"):
+        return
     bad = ctx.tlc("Gzip_MC", cfg_text=cfg("Spec", "MCTwo", 2, "MCReqsSmall", bad=True, inv=True), workers=4, timeout=200)
     if bad.error or bad.timed_out or bad.violated not in ("NoSharedWriter", "ContentIntact", "NoCrossTalk"):
         ctx.inconclusive("the design that returns a writer to the pool before flushing it is NOT rejected by the model's invariants (violated=%s error=%s)"
@@ -153,17 +159,25 @@ def run(ctx):
     two = os.path.join(ctx.tmp, "c17.two")
     if not gen(ctx, "two-handlers", two, "MCTwo", 2, ctx.pick("MCReqsPair", "MCReqsMid"), False):
         return
+    info = os.path.join(ctx.tmp, "c17.info")
+    if not gen(ctx, "informational", info, "MCOne", ctx.pick(3, 4), "MCReqsInfo", False, codes="MCCodesInfo"):
+        return
+    info2 = os.path.join(ctx.tmp, "c17.info2")
+    if not gen(ctx, "informational-two-handlers", info2, "MCTwo", 2, "MCReqsInfoPair", False, codes="MCCodesInfoSmall"):
+        return
     behs = os.path.join(ctx.tmp, "c17.behs")
     n1 = share(ctx, one, behs, ctx.pick(0.04, 0.2), boost=4.0)
     n2 = share(ctx, two, behs, ctx.pick(0.03, 0.08), boost=2.0)
+    n3 = share(ctx, info, behs, ctx.pick(0.12, 0.3), boost=2.0, need='"code":10')
+    n2 += share(ctx, info2, behs, ctx.pick(0.05, 0.3), boost=2.0, need='"code":10')
 
     # 3. replay against the real handler, concurrently, under the race detector
     r = run_gzip(ctx, behs, "C17 replay", timeout=ctx.pick(400, 850))
     if r is None:
         return
     s = r.summary
-    ctx.log("replayed %d behaviours (%d single-handler + %d two-handler selected): %d handlers, %d delivered gzip / %d plain, %.1f MB written by inner handlers, %d chunks >= 64 KiB, %d failed, %.0fs"
-            % (s["ran"], n1, n2, s["handlers"], s["gzip_mode"], s["plain_mode"], s["inner_bytes"] / 1e6, s["chunks_64k_plus"], s["fails"], r.wall))
+    ctx.log("replayed %d behaviours (%d single-handler + %d two-handler + %d with informational headers selected, %d reference runs without the wrapper): %d handlers, %d delivered gzip / %d plain, %.1f MB written by inner handlers, %d chunks >= 64 KiB, %d failed, %.0fs"
+            % (s["ran"], n1, n2, n3, s["reference_runs"], s["handlers"], s["gzip_mode"], s["plain_mode"], s["inner_bytes"] / 1e6, s["chunks_64k_plus"], s["fails"], r.wall))
     if s["ran"] == 0 or s["gzip_mode"] == 0 or s["plain_mode"] == 0 or s["two_handler_behaviours"] == 0:
         ctx.inconclusive("replay is vacuous: %s" % json.dumps(s)[:400])
     ctx.cover("gzip", traces_validated_against_impl=s["ran"], evaluations=s["handlers"], distinct_nontrivial=s["distinct_nontrivial"],
@@ -176,6 +190,7 @@ def run(ctx):
     # 4. through the real HTTPProxy (upstream performs the script)
     px = os.path.join(ctx.tmp, "c17.proxy")
     share(ctx, one, px, ctx.pick(0.02, 0.03), boost=4.0)
+    share(ctx, info, px, ctx.pick(0.08, 0.15), boost=2.0, need='"code":10')
     r = run_proxy(ctx, px, "C17 through HTTPProxy", timeout=ctx.pick(300, 600))
     if r is None:
         return
